@@ -17,7 +17,7 @@ func init() {
 		DoesNotCover: "That every id a deletion function receives at run time is unreferenced (a property of histories) is not decided; crash points are not enumerated (C08).",
 	}, runC10)
 	register("C11", propMeta{
-		Explanation: "Decides that every artifact class a transaction stages has an undo and that logs are removed on every terminal path: (R1) the undo table (shared with C07.R1): every persistent commit step has a guarded undo block calling the matching undo function in the live rollback and in the dead-transaction log replay; (R2) partial steps (shared with C07.R2); (R3) transaction logs are removed on every terminal path - rollback, cleanup, log replay (shared with C07.R4) - and the priority log is removed after a successful commit and by the live rollback once it may have been written; (R4) obsolete data is actually handed to deletion after a commit: cleanup passes getToBeObsoleteEntries() to deleteObsoleteEntries and getObsoleteTrackedItemsValues() to deleteTrackedItemsValues, and the functions that only BUILD log payloads do not consume the deletion queue that a later step reads.",
+		Explanation: "Decides that every artifact class a transaction stages has an undo and that logs are removed on every terminal path: (R1) the undo table (shared with C07.R1): every persistent commit step has a guarded undo block calling the matching undo function in the live rollback and in the dead-transaction log replay; (R2) partial steps (shared with C07.R2); (R3) transaction logs are removed on every terminal path - rollback, cleanup, log replay (shared with C07.R4) - and the priority log is removed after a successful commit and by the live rollback once it may have been written; (R4) obsolete data is actually handed to deletion after a commit: cleanup passes getToBeObsoleteEntries() to deleteObsoleteEntries and getObsoleteTrackedItemsValues() to deleteTrackedItemsValues, and the functions that only BUILD log payloads do not consume the deletion queue that a later step reads. (R5) Undo discoverability, derived from the undo functions: rollbackUpdatedNodes finds the blobs it deletes through the inactive ids recorded in the registry, so commitUpdatedNodes must record them in the registry before, and only if that succeeded then, write the blobs.",
 		DoesNotCover: "Comparing the blob store / registry contents with the reachable set is a runtime matter and is not decided.",
 	}, runC11)
 }
@@ -367,6 +367,145 @@ func runC11(c *Ctx) {
 		c.Analysed(consumer)
 		c.Check(len(w.usesOf(consumer, queue, false)) >= 1 && len(w.writesOf(consumer, queue, true)) == 0, r4, "getObsoleteTrackedItemsValues reads the deletion queue without consuming it", consumer.Decl.Pos(), "reads, does not write", "the consumer of the deletion queue no longer reads it (or clears it before phase 2 logs it)", nil)
 	}
+
+	r5 := c.Rule("R5", "what an undo function must look up in the registry is recorded there before the data it leads to is written: rollbackUpdatedNodes finds the staged blobs through the inactive ids of the registry handles, so commitUpdatedNodes writes the reservation before (and only if it succeeded, then) the blobs (derived; shared with C03.R1 / C37.R2)", 3)
+	undoDiscoveryRule(c, r5)
+}
+
+// flowsFrom returns the local objects of f that (transitively, through assignments whose left side is
+// rooted at them) receive a value mentioning one of the seed objects.
+func flowsFrom(f *Func, seeds map[types.Object]bool) map[types.Object]bool {
+	info := f.Pkg.TypesInfo
+	set := map[types.Object]bool{}
+	for k := range seeds {
+		set[k] = true
+	}
+	rootObj := func(e ast.Expr) types.Object {
+		for {
+			switch x := ast.Unparen(e).(type) {
+			case *ast.SelectorExpr:
+				e = x.X
+			case *ast.IndexExpr:
+				e = x.X
+			case *ast.StarExpr:
+				e = x.X
+			case *ast.SliceExpr:
+				e = x.X
+			case *ast.Ident:
+				if o := info.Defs[x]; o != nil {
+					return o
+				}
+				return info.Uses[x]
+			default:
+				return nil
+			}
+		}
+	}
+	mentionsAny := func(e ast.Node) bool {
+		hit := false
+		ast.Inspect(e, func(n ast.Node) bool {
+			if id, ok := n.(*ast.Ident); ok && set[info.Uses[id]] {
+				hit = true
+			}
+			return !hit
+		})
+		return hit
+	}
+	for changed := true; changed; {
+		changed = false
+		ast.Inspect(f.Body, func(n ast.Node) bool {
+			as, ok := n.(*ast.AssignStmt)
+			if !ok {
+				return true
+			}
+			any := false
+			for _, r := range as.Rhs {
+				if mentionsAny(r) {
+					any = true
+				}
+			}
+			if !any {
+				return true
+			}
+			for _, l := range as.Lhs {
+				if o := rootObj(l); o != nil && !set[o] {
+					set[o] = true
+					changed = true
+				}
+			}
+			return true
+		})
+	}
+	return set
+}
+
+// undoDiscoveryRule (C11.R5 = C07.R8): derive, from the undo function, whether it discovers the blobs to delete
+// through the registry; if so the do function must record them in the registry first.
+func undoDiscoveryRule(c *Ctx, r string) {
+	w := c.W
+	pairs := []struct{ do, undo string }{
+		{kNRBcommitUpdated, kNRBrbUpdated},
+		{kNRBcommitAdded, kNRBrbAdded},
+	}
+	derived := 0
+	for _, p := range pairs {
+		fu := w.Fn(p.undo)
+		gu := w.G(fu)
+		c.Analysed(fu)
+		info := fu.Pkg.TypesInfo
+		seeds := map[types.Object]bool{}
+		for _, nc := range gu.callNodes(kRegGet) {
+			if v := gu.lhsVarOfCall(nc.n, nc.cs, 0); v != nil {
+				seeds[v] = true
+			}
+		}
+		viaRegistry := false
+		if len(seeds) > 0 {
+			fl := flowsFrom(fu, seeds)
+			for _, nc := range gu.callNodes(kBlobRemove) {
+				for _, a := range nc.cs.Call.Args {
+					ast.Inspect(a, func(n ast.Node) bool {
+						if id, ok := n.(*ast.Ident); ok && fl[info.Uses[id]] {
+							viaRegistry = true
+						}
+						return true
+					})
+				}
+			}
+		}
+		fd := w.Fn(p.do)
+		gd := w.G(fd)
+		c.Analysed(fd)
+		if !viaRegistry {
+			c.Held(r, shortKey(p.do)+": its undo deletes blobs by ids it is handed", fu.Decl.Pos(), shortKey(p.undo)+" does not look the blob ids up in the registry: no write order is implied")
+			continue
+		}
+		derived++
+		isRegWrite := calls(kRegUpdNL, kRegUpd, kRegAdd)
+		offs := gd.MustPrecede(isRegWrite, calls(kBlobAdd))
+		c.Offences(gd, offs, r, shortKey(p.do)+": the registry records the new ids before their blobs are written", fd.Decl.Pos(), "the registry write precedes blobStore.Add on every path",
+			shortKey(p.undo)+" finds the blobs to delete through the ids recorded in the registry, but a blob can be written before (or without) that record: if the registry write then fails the blobs are orphans no undo or recovery can find")
+		okE := false
+		for _, nc := range gd.Find(isRegWrite) {
+			for _, cs := range nc.Calls {
+				if !isRegWrite(&GNode{Calls: []*CallSite{cs}}) {
+					continue
+				}
+				if _, succ, ok := gd.ErrBranches(nc, cs); ok {
+					okE = len(gd.ReachableWithout(func(from *GNode, e Edge) bool {
+						for _, sx := range succ {
+							if e.To == sx {
+								return true
+							}
+						}
+						return false
+					}, calls(kBlobAdd))) == 0
+				}
+			}
+		}
+		c.Check(okE, r, shortKey(p.do)+": blobs are written only after the registry write succeeded", fd.Decl.Pos(), "blobStore.Add is reachable only through the success edge of the registry write", "blobStore.Add is reachable although the registry write failed or was skipped", nil)
+	}
+	c.Check(derived >= 1, r, "undo discovery: at least one undo function looks blobs up in the registry", token.NoPos, fmt.Sprintf("%d derived", derived), "no undo function reads the registry to find blobs any more (rule has nothing to decide)", nil)
 }
 
 // decodeErrorsRule (C10.R5, shared by C19.R2).
